@@ -55,7 +55,7 @@ class Job:
     def __init__(self, name, entry, objs, enforce=None, replace=(), loop_contracts=False,
                  cbmc_args=(), unwind=None, timeout=300, mem_gb=8, level="proof",
                  functions=(), note="", known=None, bound_note="", safety=True,
-                 expect_fail=("reach",), object_bits=None, optional=False):
+                 expect_fail=("reach",), object_bits=12, optional=False):
         self.name = name
         self.entry = entry
         self.objs = list(objs)
